@@ -1868,3 +1868,70 @@ def c02g(F, R):
         R.ok("fallback", detail="unknown ecall number: all argument registers are treated as read", where=loc(hit))
     else:
         R.bad("fallback", f"for an ecall whose number is unknown liveness assumes no argument is read (`{hit['name']}`): `mv a7, a0; li a0, 65; ecall` reports `li a0, 65` as an unused value", loc(hit))
+
+
+@rule("C05", "C05.f.cfg-iterators-yield-what-they-read", floor=3)
+@rule("C02", "C02.i.cfg-iterators-yield-what-they-read", floor=3)
+def c05f(F, R):
+    """the iterators over the CFG's node vector hand out every element they read: between reading `self.nodes.get(cursor)` and yielding it there is no early return or `?` (an index-0 special case that bails out before `result` is returned makes reverse iteration skip the program entry, whose liveness the lints depend on)"""
+    n = 0
+    for i in F.impls:
+        tr = (i.get("trait") or "")
+        if not (tr.endswith("iter::traits::iterator::Iterator") or tr.endswith("double_ended::DoubleEndedIterator") or tr.split("::")[-1] in ("Iterator", "DoubleEndedIterator")):
+            continue
+        if "riscv_analysis::cfg::" not in i["self_ty"]:
+            continue
+        for it in i["items"]:
+            if it["name"] not in ("next", "next_back") or it["path"] not in F.fns or "hir" not in F.fns[it["path"]]:
+                continue
+            f = F.fns[it["path"]]
+            body = peel(f["hir"]["value"])
+            stmts = body.get("stmts") or []
+            name = f"{short(i['self_ty'].split('<')[0])}::{it['name']}"
+            reads = [(k, st) for k, st in enumerate(stmts) if st.get("k") == "Let" and st.get("init") and any(m.get("k") == "MethodCall" and m["name"] == "get" and ekey(m["recv"]).startswith("self.") for m in walk(st["init"], pats=False))]
+            if not reads:
+                # `if let Some(node) = self.nodes.get(cursor) { cursor += 1; return Some(node) }` form: the read and the yield are one construct
+                direct = any(x.get("k") == "If" and peel(x["cond"]).get("k") == "LetExpr" and any(m.get("k") == "MethodCall" and m["name"] in ("get", "pop", "pop_front") for m in walk(peel(x["cond"])["init"], pats=False)) for x in walk(body, pats=False)) or \
+                    any(x.get("k") == "Loop" for x in walk(body, pats=False))
+                if direct:
+                    n += 1
+                    R.ok(name, detail=f"{name}: element read and yielded in one `if let`/`while let`")
+                continue
+            n += 1
+            k, st = reads[0]
+            var = st["pat"].get("name")
+            bad = None
+            for later in stmts[k + 1:]:
+                for x in walk(later, pats=False):
+                    if x.get("k") == "Ret" or (x.get("k") == "Match" and x.get("src") == "TryDesugar"):
+                        bad = x
+            tail = body.get("expr")
+            tail_ok = tail is not None and any(x.get("k") == "Path" and x.get("res") == var for x in walk(tail, pats=False))
+            if bad is not None:
+                R.bad(name, f"{name} reads an element into `{var}` and can then leave (`?` / `return`) without yielding it: that element is skipped (for reverse iteration: node 0, the program entry, never gets its liveness)", loc(bad))
+            elif not tail_ok:
+                R.bad(name, f"{name} reads an element into `{var}` but its result is not `{var}`", f["sp"])
+            else:
+                R.ok(name, detail=f"{name}: `{var}` is read, the cursor is moved, `{var}` is returned")
+    if n == 0:
+        raise Anchor("no CFG iterator implementation found")
+
+
+@rule("C02", "C02.h.branches-to-functions-are-call-sites", floor=4)
+def c02h(F, R):
+    """`is_some_jump_to_label` (what makes a jump or branch to a function label a call site for liveness and the dead-value lint) answers for every branch and for `jal x0, L`, and for nothing that links"""
+    from .nodeprops import eval_prop, Unx
+    cases = [("Branch", {"rs1": "X5", "rs2": "X6", "inst": "Beq"}, "some"), ("Branch", {"rs1": "X10", "rs2": "X0", "inst": "Bne"}, "some"),
+             ("Branch", {"rs1": "X0", "rs2": "X0", "inst": "Beq"}, "some"), ("JumpLink", {"rd": "X0"}, "some"),
+             ("JumpLink", {"rd": "X1"}, "none")]
+    for v, env, want in cases:
+        key = f"{v}|" + ",".join(f"{k}={x}" for k, x in sorted(env.items()))
+        try:
+            r = eval_prop(F, "is_some_jump_to_label", v, env)
+        except Unx as ex:
+            R.bad(key + "|unextractable", f"UNEXTRACTABLE: is_some_jump_to_label on {v} {env}: {ex}", None)
+            continue
+        if r == want:
+            R.ok(key, detail=f"is_some_jump_to_label = {r}")
+        else:
+            R.bad(key, f"`{v.lower()}` with {env}: is_some_jump_to_label answers {r}, expected {want}: a conditional branch to a function label is no longer a call site, so the callee's argument registers are not live before it (false `Unused value` on the argument set-up)", F.fn(F.method(PNODE, "is_some_jump_to_label", trait=IPROPS))["sp"])
